@@ -220,6 +220,13 @@ impl TopicActor {
         &mut self,
         subscription: Arc<Subscription>,
     ) -> Result<(), AttachSubscriptionError> {
+        // A subscription can be deleted before its attachment request gets here; its
+        // removal request has then already been handled, so attaching it now would
+        // leave a dead subscription on the topic (and fail every publish).
+        if subscription.is_detached() {
+            return Ok(());
+        }
+
         // Insert the subscription.
         if let Entry::Vacant(entry) = self.subscriptions.entry(subscription.name.clone()) {
             entry.insert(subscription);
